@@ -246,6 +246,20 @@ def r20_2(ctx: Ctx) -> None:
         kws = {k.arg: unparse(k.value) for k in ar[0].keywords}
         ok = all(kname in kws and f'"{kname}"' in kws[kname].replace("'", '"') for kname in ("address", "subnet_mask", "next_hop_ip_address", "metric"))
         ctx.record("R20.2", ctx.key(f, "route address / mask / next hop / metric from the file"), f.loc(ar[0]), ok, f"{kws}")
+        # the default route is a declaration of its own: it must not sit in an arm that a test of the `routes` declaration excludes
+        gg = CFG(f.node)
+        ldd = LocalDefs(f.node)
+        drn = [x for x in gg.nodes if any(call_name(c) == "set_default_route_next_hop_ip_address" for c in node_calls(x))]
+        if drn:
+            def routes_absent_edge(e) -> bool:
+                if not (e.label and e.label[0] == "cond"):
+                    return False
+                t = unparse(ldd.expand(e.label[1]))
+                return ("'routes'" in t or '"routes"' in t) and e.label[2] is False
+            p_ = gg.path_avoiding(drn, routes_absent_edge)
+            ctx.record("R20.2", ctx.key(f, "a declared default route is installed whether or not static routes are declared"), f.loc(drn[0].ast),
+                       p_ is not None, "the default-route block is reachable with `routes` present" if p_ is not None else
+                       "the default route is only installed when the router declares no static routes")
         dr = [c for c in calls_in(f.node) if call_name(c) == "set_default_route_next_hop_ip_address"]
         ctx.record("R20.2", ctx.key(f, "default route from the file"), f.loc(), bool(dr) and "next_hop_ip_address" in unparse(dr[0]),
                    unparse(dr[0])[:80] if dr else "no default-route parser")
